@@ -3,6 +3,7 @@ package props
 import (
 	"encoding/json"
 	"fmt"
+	"math"
 	"math/big"
 	"regexp"
 	"sort"
@@ -201,37 +202,82 @@ func lossyEqual(req *ir.Request, full string, a, b proto.Message) bool {
 	return proto.Equal(x, y)
 }
 
+// codecLossyEqual is lossyEqual plus the one loss the flatten mapping has by construction: a
+// flattened child without populated fields contributes no member, so "empty child" and "no child"
+// have the same documented JSON.
+func codecLossyEqual(req *ir.Request, full string, a, b proto.Message) bool {
+	x := proto.Clone(a)
+	y := proto.Clone(b)
+	for _, m := range []proto.Message{x, y} {
+		lossyAll(req, full, m.ProtoReflect())
+		dropEmptyFlattenChildren(req, full, m.ProtoReflect())
+	}
+	return proto.Equal(x, y)
+}
+
+func dropEmptyFlattenChildren(req *ir.Request, full string, m protoreflect.Message) {
+	im, _ := req.FindMessage(full)
+	if im == nil {
+		return
+	}
+	for _, f := range im.Fields {
+		if f.Ann.Flatten == nil || !*f.Ann.Flatten || f.Kind != "message" || f.Card == "repeated" || f.Card == "map" {
+			continue
+		}
+		fd := m.Descriptor().Fields().ByName(protoreflect.Name(f.Name))
+		if fd == nil || !m.Has(fd) {
+			continue
+		}
+		empty := true
+		m.Get(fd).Message().Range(func(protoreflect.FieldDescriptor, protoreflect.Value) bool { empty = false; return false })
+		if empty {
+			m.Clear(fd)
+		}
+	}
+}
+
+// codecCase is one (type, value) of the codec checks with everything observed about it.
+type codecCase struct {
+	x     *rtItem
+	full  string
+	name  string
+	val   *dynamicpb.Message
+	encOp map[string]any
+	dop   map[string]any
+}
+
 // codecCheck drives both C04 (round trip) and C05 (documented mapping at every depth).
 func codecCheck(c *Ctx, prop string) error {
 	res := c.Res
-	res.Rule = "annotated message types (every codec feature on the shapes the emitted Go compiles for, each also embedded as singular child / list element / map value of a parent) x boundary-biased values: the real MarshalJSON / UnmarshalJSON (or protojson, as the server chooses) run on the compiled generated package; " +
+	res.Rule = "annotated message types (every codec feature on the shapes the emitted Go compiles for, each also embedded as singular child / list element / map value of a parent; plus codec files built around the flatten, discriminated-oneof and map-value-unwrap templates with rich, empty, multi-word and self-marshalling children) x boundary-biased and directed values: the real MarshalJSON / UnmarshalJSON (or protojson, as the server chooses) run on the compiled generated package; " +
 		"a case is one (type, value); non-trivial = the value has a populated field; distinct by (schema, type, value digest)"
 	res.Assumptions = append(res.Assumptions, "float text and RFC 3339 / date renderings of Timestamps are taken from the real library as leaves of the Lean mapping model", "values above 2^53 under int64_encoding=NUMBER are compared exactly (Go side); the JavaScript precision limit is documented")
 	r := gen.New(c.Seed)
 	n := c.N(10, 80)
+	nCodec := c.N(3, 12)
 	per := c.N(12, 60)
-	bt, items, err := buildBatch(n, func(i int) *ir.Request {
-		f := gen.GenAnnotFile(r.Fork(fmt.Sprint(prop, "-", i)), i, gen.AnnotOpts{Safe: true})
+	bt, items, err := buildBatch(n+nCodec, func(i int) *ir.Request {
+		var f *ir.File
+		if i < n {
+			f = gen.GenAnnotFile(r.Fork(fmt.Sprint(prop, "-", i)), i, gen.AnnotOpts{Safe: true})
+		} else {
+			f = gen.GenCodecFile(r.Fork(fmt.Sprint(prop, "-codec-", i)), i)
+		}
 		return &ir.Request{Files: []*ir.File{f}, Generate: []string{f.Name}}
 	}, scratch.AddOpts{GoHTTP: true, GoClient: true}, false)
 	if err != nil {
 		return err
 	}
 	defer bt.Close()
-	type kase struct {
-		x     *rtItem
-		full  string
-		name  string
-		val   *dynamicpb.Message
-		encOp map[string]any
-		dop   map[string]any
-	}
-	var all []*kase
+	var all []*codecCase
 	for xi, x := range items {
 		if !x.it.Built {
 			// Safe schemas are expected to build; a failure here is C13's finding, but it also means no codec can be run
 			res.Count("unbuildable")
 			res.Note("schema " + x.it.ID + " does not build: " + errorClass(x.it.BuildLog))
+			if xi >= n {
+				res.Corr("codec_file_unbuildable", "a codec file (gen.GenCodecFile) does not build: "+errorClass(x.it.BuildLog), map[string]any{"schema": x.req})
+			}
 			continue
 		}
 		rr := r.Fork(fmt.Sprint("vals-", xi))
@@ -242,6 +288,7 @@ func codecCheck(c *Ctx, prop string) error {
 			if md == nil {
 				continue
 			}
+			var vals []*dynamicpb.Message
 			for k := 0; k < per; k++ {
 				sp := 2
 				if k == 0 {
@@ -250,19 +297,29 @@ func codecCheck(c *Ctx, prop string) error {
 				if k == 1 {
 					sp = 0 // fully populated
 				}
-				v := gen.RandomMessage(rr, md, &gen.ValOpts{SparseP: sp, NonFinite: true}, 0)
-				ks := &kase{x: x, full: full, name: m.Name, val: v}
+				vals = append(vals, gen.RandomMessage(rr, md, &gen.ValOpts{SparseP: sp, NonFinite: true}, 0))
+			}
+			if xi >= n {
+				for k := 0; k < per/2; k++ {
+					// finite floats only: non-finite ones end most encodings of the rich shapes early
+					vals = append(vals, gen.RandomMessage(rr.Fork(fmt.Sprint("finite-", m.Name, k)), md, &gen.ValOpts{SparseP: 1 + k%5}, 0))
+				}
+			}
+			// directed values (for every schema: the shapes exist in both generators)
+			vals = append(vals, gen.CodecValues(md)...)
+			for _, v := range vals {
+				ks := &codecCase{x: x, full: full, name: m.Name, val: v}
 				ks.encOp = map[string]any{"op": "enc", "type": strings.TrimPrefix(full, "."), "val": jsonRaw(gen.PJ(v))}
 				ks.dop = map[string]any{"op": "spec_enc", "rq": model, "type": full, "val": gen.ValJSON(v)}
 				all = append(all, ks)
 			}
 		}
 	}
-	byItem := map[*rtItem][]*kase{}
+	byItem := map[*rtItem][]*codecCase{}
 	for _, k := range all {
 		byItem[k.x] = append(byItem[k.x], k)
 	}
-	outs := map[*kase]map[string]any{}
+	outs := map[*codecCase]map[string]any{}
 	var mu sync.Mutex
 	var runErr error
 	var its []*rtItem
@@ -304,7 +361,7 @@ func codecCheck(c *Ctx, prop string) error {
 	}
 	// second pass: decode the contract-form JSON (Spec.enc) with the real decoder
 	type decCase struct {
-		k   *kase
+		k   *codecCase
 		op  map[string]any
 		out map[string]any
 	}
@@ -347,7 +404,7 @@ func codecCheck(c *Ctx, prop string) error {
 			return runErr
 		}
 	}
-	decOut := map[*kase]map[string]any{}
+	decOut := map[*codecCase]map[string]any{}
 	for _, d := range decs {
 		decOut[d.k] = d.out
 	}
@@ -363,116 +420,723 @@ func codecCheck(c *Ctx, prop string) error {
 			res.Violation("fault", k.name+": encoder "+fault, replay)
 			continue
 		}
+		var d map[string]any
+		if douts != nil {
+			d = douts[i]
+			replay["model"] = map[string]any{"spec": d["spec"], "impl": d["impl"], "template": d["template"], "impl_rt": d["impl_rt"], "impl_dec_spec": d["impl_dec_spec"]}
+		}
+		template, _ := d["template"].(string)
+		cc := &codecCtx{res: res, k: k, prop: prop, feat: feat, template: template, replay: replay}
 		if e, ok := o["err"].(string); ok && e != "" {
-			// NaN / Inf cannot be encoded by encoding/json paths; protojson can
+			// NaN / Inf and map<bool,_> cannot be encoded on the encoding/json paths; protojson can
 			predicted := false
-			key := "encode_error:" + feat + ":non_finite_float_in_scalar_unwrap"
-			if douts != nil {
-				predicted, _ = douts[i]["encode_fails"].(bool)
-				if unmodelled(douts[i]) {
-					predicted = true
-					key = "encode_error:" + feat + ":non_finite_float_via_encoding_json"
-				} else if predicted {
+			if d != nil {
+				predicted, _ = d["encode_fails"].(bool)
+				if predicted {
 					res.CorrAgree()
 				} else {
 					res.Corr("encode_error:"+feat, fmt.Sprintf("%s: the real encoder fails (%s), the model predicts success", k.name, e), replay)
 				}
 			}
-			res.Divergence(key, fmt.Sprintf("%s: encoding failed: %s", k.name, e), predicted, replay)
+			res.Divergence("encode_error:"+cc.encodeErrorCause(e), fmt.Sprintf("%s: encoding failed: %s", k.name, e), predicted, replay)
 			continue
 		}
-		if douts != nil {
-			if p, _ := douts[i]["encode_fails"].(bool); p {
-				res.Corr("encode_error:"+feat, k.name+": the model predicts an encoder error, the real encoder succeeded", replay)
-			}
-		}
 		realJ := normJSON(o["json"])
-		var d map[string]any
-		if douts != nil {
-			d = douts[i]
-			replay["model"] = map[string]any{"spec": d["spec"], "impl": d["impl"], "modelled": d["modelled"]}
-		}
 		implAgrees := false
-		asym := false // the model says the server's own JSON form differs from the contract form for this value, or the template is outside the model
+		asym := false // the model says the server's own JSON form differs from the contract form for this value
 		if d != nil {
-			modelledT, _ := d["modelled"].(bool)
-			asym = !modelledT || firstDiff(normJSON(d["spec"]), normJSON(d["impl"]), "") != ""
-		}
-		if d != nil {
-			modelled, _ := d["modelled"].(bool)
-			implJ := normJSON(d["impl"])
-			if modelled {
+			if p, _ := d["encode_fails"].(bool); p {
+				res.Corr("encode_error:"+feat, k.name+": the model predicts an encoder error, the real encoder succeeded", replay)
+			} else {
+				implJ := normJSON(d["impl"])
+				asym = firstDiff(normJSON(d["spec"]), implJ, "") != ""
 				if diff := firstDiff(realJ, implJ, ""); diff == "" {
 					implAgrees = true
 					res.CorrAgree()
 				} else {
 					res.Corr("enc:"+feat, fmt.Sprintf("%s: the real encoder's output differs from the model at %s", k.name, diff), replay)
 				}
-				// which encoder the server picks
-				if rc, _ := o["custom"].(bool); rc != d["custom"] {
-					res.Corr("encoder_choice:"+feat, fmt.Sprintf("%s: real type has MarshalJSON=%v, the model says %v", k.name, rc, d["custom"]), replay)
-				}
+			}
+			// which encoder the server picks
+			if rc, _ := o["custom"].(bool); rc != d["custom"] {
+				res.Corr("encoder_choice:"+feat, fmt.Sprintf("%s: real type has MarshalJSON=%v, the model says %v", k.name, rc, d["custom"]), replay)
 			}
 		}
 		if prop == "C05" && d != nil {
 			specJ := normJSON(d["spec"])
 			if diff := firstDiff(realJ, specJ, ""); diff != "" {
-				ctx := contextOf(k.x.req, k.full, diff)
-				key := fmt.Sprintf("mapping:%s", ctx)
-				modelled, _ := d["modelled"].(bool)
-				res.Divergence(key, fmt.Sprintf("%s: server JSON differs from the documented mapping at %s (%s)", k.name, diff, ctx), implAgrees || !modelled, replay)
+				cause := cc.mappingCause(diff)
+				res.Divergence("mapping:"+cause, fmt.Sprintf("%s: server JSON differs from the documented mapping at %s (%s)", k.name, diff, cause), implAgrees, replay)
 			}
-			// the handler-visible request for a contract-form body
-			if do := decOut[k]; do != nil {
-				replay["decode_of_spec"] = do
-				if e, ok := do["err"].(string); ok && e != "" {
-					key := "decode_contract_form:" + feat
-					res.Divergence(key, fmt.Sprintf("%s: the contract-form JSON is rejected: %s", k.name, firstLine(e)), asym, replay)
-				} else if fault, _ := do["fault"].(string); fault != "" {
-					res.Violation("fault", k.name+": decoder "+fault, replay)
-				} else {
-					got := dynamicpb.NewMessage(k.val.Descriptor())
-					if b, err := json.Marshal(do["val"]); err == nil {
-						if err := protojsonUnmarshal(b, got); err == nil && !lossyEqual(k.x.req, k.full, k.val, got) {
-							key := "decode_contract_form_value:" + feat
-							res.Divergence(key, fmt.Sprintf("%s: decoding the contract-form JSON yields a different message", k.name), asym, replay)
-						}
-					}
-				}
-			}
+		}
+		if d == nil {
+			continue
+		}
+		// the handler-visible request for a contract-form body (C05), = what another party's
+		// canonical JSON decodes to (C04)
+		if do := decOut[k]; do != nil {
+			replay["decode_of_spec"] = do
+			cc.decodeCheck("decode_contract_form", do["err"], do["fault"], do["val"], d["impl_dec_spec"], asym)
 		}
 		if prop == "C04" {
 			// decode(encode v) = v up to the documented losses
-			if e, ok := o["rt_err"].(string); ok && e != "" {
-				res.Divergence("roundtrip_error:"+feat, fmt.Sprintf("%s: the generated decoder rejects what the generated encoder produced: %s", k.name, firstLine(e)), unmodelled(d), replay)
-				continue
-			}
-			back := dynamicpb.NewMessage(k.val.Descriptor())
-			if b, err := json.Marshal(o["rt"]); err == nil {
-				if err := protojsonUnmarshal(b, back); err != nil {
-					return fmt.Errorf("harness: cannot re-read round-tripped value: %v", err)
-				}
-			}
-			if !lossyEqual(k.x.req, k.full, k.val, back) {
-				res.Divergence("roundtrip:"+feat, fmt.Sprintf("%s: decode(encode(v)) differs from v beyond the documented losses", k.name), unmodelled(d), replay)
-			}
-			// contract-form JSON decodes to the same message
-			if do := decOut[k]; do != nil && d != nil {
-				if e, ok := do["err"].(string); ok && e != "" {
-					res.Divergence("decode_contract_form:"+feat, fmt.Sprintf("%s: the contract-form JSON is rejected: %s", k.name, firstLine(e)), asym, replay)
-				} else {
-					got := dynamicpb.NewMessage(k.val.Descriptor())
-					if b, err := json.Marshal(do["val"]); err == nil {
-						if err := protojsonUnmarshal(b, got); err == nil && !lossyEqual(k.x.req, k.full, k.val, got) {
-							res.Divergence("decode_contract_form_value:"+feat, fmt.Sprintf("%s: decoding the contract-form JSON yields a different message", k.name), asym, replay)
-						}
-					}
-				}
-			}
+			cc.decodeCheck("roundtrip", o["rt_err"], nil, o["rt"], d["impl_rt"], false)
 		}
 	}
 	res.Programs = len(items)
 	return nil
+}
+
+// codecCtx carries what the divergence classifiers need about one case.
+type codecCtx struct {
+	res      interface {
+		Corr(key, what string, replay any)
+		CorrAgree()
+		Divergence(key, what string, implAgrees bool, replay any)
+		Violation(key, what string, replay any)
+	}
+	k        *codecCase
+	prop     string
+	feat     string
+	template string // flatten | oneof | container | surgery (the Lean model's dispatch)
+	replay   map[string]any
+}
+
+func (cc *codecCtx) msg() *ir.Message {
+	m, _ := cc.k.x.req.FindMessage(cc.k.full)
+	return m
+}
+
+func (cc *codecCtx) find(full string) *ir.Message {
+	m, _ := cc.k.x.req.FindMessage(full)
+	return m
+}
+
+// goCamel is protogen's GoCamelCase for the identifiers the codec files use (snake_case names).
+func goCamel(s string) string {
+	var b strings.Builder
+	up := true
+	for _, c := range s {
+		if c == '_' {
+			up = true
+			continue
+		}
+		if up && c >= 'a' && c <= 'z' {
+			c -= 'a' - 'A'
+		}
+		up = c >= '0' && c <= '9'
+		b.WriteRune(c)
+	}
+	return b.String()
+}
+
+func hasNonFiniteFloat(m protoreflect.Message) bool {
+	found := false
+	var walk func(m protoreflect.Message)
+	isBad := func(fd protoreflect.FieldDescriptor, v protoreflect.Value) bool {
+		if fd.Kind() != protoreflect.FloatKind && fd.Kind() != protoreflect.DoubleKind {
+			return false
+		}
+		f := v.Float()
+		return f != f || f > 1.7976931348623157e308 || f < -1.7976931348623157e308
+	}
+	walk = func(m protoreflect.Message) {
+		m.Range(func(fd protoreflect.FieldDescriptor, v protoreflect.Value) bool {
+			switch {
+			case fd.IsMap():
+				v.Map().Range(func(_ protoreflect.MapKey, e protoreflect.Value) bool {
+					if fd.MapValue().Kind() == protoreflect.MessageKind {
+						walk(e.Message())
+					} else if isBad(fd.MapValue(), e) {
+						found = true
+					}
+					return true
+				})
+			case fd.IsList():
+				for i := 0; i < v.List().Len(); i++ {
+					if fd.Kind() == protoreflect.MessageKind {
+						walk(v.List().Get(i).Message())
+					} else if isBad(fd, v.List().Get(i)) {
+						found = true
+					}
+				}
+			case fd.Kind() == protoreflect.MessageKind:
+				walk(v.Message())
+			default:
+				if isBad(fd, v) {
+					found = true
+				}
+			}
+			return true
+		})
+	}
+	walk(m)
+	return found
+}
+
+// encodeErrorCause names the root cause of an encoder error.
+func (cc *codecCtx) encodeErrorCause(e string) string {
+	what := "encoding_json_error"
+	switch {
+	case strings.Contains(e, "unsupported value"):
+		what = "non_finite_float"
+	case strings.Contains(e, "unsupported type: map[bool]"):
+		what = "bool_key_map"
+	}
+	switch cc.template {
+	case "flatten":
+		return "flatten_child_" + what
+	case "container":
+		return "unwrap_container_" + what
+	case "oneof":
+		return "oneof_" + what
+	}
+	if m := cc.msg(); m != nil && len(m.Fields) == 1 && m.Fields[0].Ann.Unwrap {
+		if m.Fields[0].Card == "map" && m.Fields[0].Kind == "message" {
+			return "root_map_value_unwrap_" + what
+		}
+		return "root_unwrap_" + what
+	}
+	return cc.feat + ":" + what
+}
+
+// flattenKeySpace says whether a top-level JSON key belongs to a flattened child of m (under
+// the documented lowerCamel names, the proto names encoding/json writes, or a oneof's Go name).
+func (cc *codecCtx) flattenKeySpace(seg string) (childField *ir.Field, isOneofKey, ok bool) {
+	m := cc.msg()
+	if m == nil {
+		return nil, false, false
+	}
+	for _, f := range m.Fields {
+		if f.Ann.Flatten == nil || !*f.Ann.Flatten {
+			continue
+		}
+		prefix := ""
+		if f.Ann.FlattenPrefix != nil {
+			prefix = *f.Ann.FlattenPrefix
+		}
+		c := cc.find(f.TypeName)
+		if c == nil || !strings.HasPrefix(seg, prefix) {
+			continue
+		}
+		rest := strings.TrimPrefix(seg, prefix)
+		for _, cf := range c.Fields {
+			if rest == cf.Name || rest == ir.JSONName(cf.Name) {
+				return cf, false, true
+			}
+		}
+		for _, o := range c.Oneofs {
+			if rest == goCamel(o.Name) {
+				return nil, true, true
+			}
+		}
+	}
+	return nil, false, false
+}
+
+// selectedVariant is the populated member of m's discriminated oneof (nil when unset).
+func (cc *codecCtx) selectedVariant() (*ir.Oneof, *ir.Field) {
+	m := cc.msg()
+	if m == nil {
+		return nil, nil
+	}
+	for _, o := range m.Oneofs {
+		if o.Discriminator == nil || *o.Discriminator == "" {
+			continue
+		}
+		for _, f := range m.Fields {
+			if f.Oneof != o.Name {
+				continue
+			}
+			fd := cc.k.val.Descriptor().Fields().ByName(protoreflect.Name(f.Name))
+			if fd != nil && cc.k.val.Has(fd) {
+				return o, f
+			}
+		}
+		return o, nil
+	}
+	return nil, nil
+}
+
+// variantKeySpace: is seg a member a flattened variant of m's oneof hoists to the top level?
+func (cc *codecCtx) variantKeySpace(seg string) (childField *ir.Field, isOneofKey, ok bool) {
+	m := cc.msg()
+	if m == nil {
+		return nil, false, false
+	}
+	for _, o := range m.Oneofs {
+		if o.Discriminator == nil || !o.Flatten {
+			continue
+		}
+		for _, f := range m.Fields {
+			if f.Oneof != o.Name || f.Kind != "message" {
+				continue
+			}
+			c := cc.find(f.TypeName)
+			if c == nil {
+				continue
+			}
+			for _, cf := range c.Fields {
+				if seg == cf.Name || seg == ir.JSONName(cf.Name) {
+					return cf, false, true
+				}
+			}
+			for _, co := range c.Oneofs {
+				if seg == goCamel(co.Name) {
+					return nil, true, true
+				}
+			}
+		}
+	}
+	return nil, false, false
+}
+
+func firstSeg(diff string) (string, []string) {
+	parts := strings.Split(strings.TrimPrefix(diff, "/"), "/")
+	if len(parts) == 0 {
+		return "", nil
+	}
+	return parts[0], parts[1:]
+}
+
+// mappingCause names the root cause of a server-JSON-vs-documented-mapping difference at diff.
+func (cc *codecCtx) mappingCause(diff string) string {
+	seg, rest := firstSeg(diff)
+	m := cc.msg()
+	switch cc.template {
+	case "root":
+		if m != nil && len(m.Fields) == 1 && diff != "/" {
+			f := m.Fields[0]
+			if f.Card == "map" && f.Kind == "message" {
+				if w := cc.find(f.TypeName); w != nil {
+					for _, wf := range w.Fields {
+						if wf.Ann.Unwrap && wf.Kind != "message" {
+							if len(rest) == 0 {
+								return "unwrap_map_value_nil_scalar_list_as_null"
+							}
+							return "root_unwrap_scalar_via_encoding_json"
+						}
+					}
+				}
+			} else if f.Kind != "message" {
+				return "root_unwrap_scalar_via_encoding_json"
+			}
+		}
+		if diff == "/" {
+			return "unwrap@top"
+		}
+	case "flatten":
+		if _, _, ok := cc.flattenKeySpace(seg); ok {
+			return "flatten_child_via_encoding_json"
+		}
+	case "oneof":
+		if _, _, ok := cc.variantKeySpace(seg); ok {
+			if _, f := cc.selectedVariant(); f != nil {
+				fd := cc.k.val.Descriptor().Fields().ByName(protoreflect.Name(f.Name))
+				if fd != nil && fd.Kind() == protoreflect.MessageKind && hasNonFiniteFloat(cc.k.val.Get(fd).Message()) {
+					return "oneof_flatten_variant_dropped_on_marshal_error"
+				}
+			}
+			return "oneof_flatten_variant_via_encoding_json"
+		}
+	case "container":
+		if m != nil {
+			for _, f := range m.Fields {
+				if ir.JSONName(f.Name) != seg {
+					continue
+				}
+				if f.Card == "map" && f.Kind == "message" {
+					if w := cc.find(f.TypeName); w != nil {
+						for _, wf := range w.Fields {
+							if wf.Ann.Unwrap {
+								if wf.Kind != "message" && len(rest) == 1 {
+									return "unwrap_map_value_nil_scalar_list_as_null"
+								}
+								return "unwrap_map_value_items_by_protojson"
+							}
+						}
+					}
+					return "unwrap_container_sibling_via_encoding_json"
+				}
+				if f.Kind != "message" || f.Card == "map" {
+					return "unwrap_container_sibling_via_encoding_json"
+				}
+			}
+		}
+	}
+	return contextOf(cc.k.x.req, cc.k.full, diff)
+}
+
+// decodeErrorCause names the root cause of a decoder error from the model's explanation
+// (class, key) — or from the real error text when the model has none.
+func (cc *codecCtx) decodeErrorCause(class, key, realErr string) string {
+	if class == "" {
+		switch {
+		case strings.Contains(realErr, "unknown field"):
+			class = "unknown_field"
+			if i := strings.Index(realErr, "unknown field \""); i >= 0 {
+				key = strings.TrimSuffix(strings.TrimSpace(realErr[i+len("unknown field \""):]), "\"")
+			}
+		case strings.Contains(realErr, "cannot unmarshal"):
+			class = "go_type"
+		default:
+			class = "bad_value"
+		}
+	}
+	if class == "bad_value" && cc.customEnumField(key) {
+		return "enumval"
+	}
+	switch cc.template {
+	case "root":
+		if class == "go_type" {
+			return "root_unwrap_scalar_via_encoding_json"
+		}
+	case "flatten":
+		switch class {
+		case "unknown_field":
+			if cf, isOneof, ok := cc.flattenKeySpace(key); ok {
+				if isOneof {
+					return "flatten_child_oneof_key"
+				}
+				if cf != nil && cf.Name != ir.JSONName(cf.Name) {
+					return "flatten_multiword_child_key"
+				}
+			}
+			return "flatten_unknown_member"
+		case "go_type":
+			return "flatten_child_via_encoding_json"
+		}
+		return "flatten_" + class
+	case "oneof":
+		o, _ := cc.selectedVariant()
+		kind := "nested"
+		if o != nil && o.Flatten {
+			kind = "flatten"
+		}
+		switch class {
+		case "unknown_field":
+			if cf, isOneof, ok := cc.variantKeySpace(key); ok {
+				if isOneof {
+					return "oneof_flatten_variant_oneof_key"
+				}
+				if cf != nil && cf.Name != ir.JSONName(cf.Name) {
+					return "oneof_flatten_multiword_variant_key"
+				}
+			}
+			return "oneof_unknown_member"
+		case "go_type":
+			return "oneof_" + kind + "_variant_via_encoding_json"
+		}
+		return "oneof_" + class
+	case "container":
+		if class == "go_type" {
+			return "unwrap_container_sibling_via_encoding_json"
+		}
+		return "unwrap_container_" + class
+	}
+	return cc.feat
+}
+
+// customEnumField: is name a field of some message of the case's file whose enum type carries
+// enum_value annotations? (protojson knows only the proto value names.)
+func (cc *codecCtx) customEnumField(name string) bool {
+	for _, f := range cc.k.x.req.Files {
+		var walk func(ms []*ir.Message) bool
+		walk = func(ms []*ir.Message) bool {
+			for _, m := range ms {
+				for _, fl := range m.Fields {
+					if fl.Name == name && fl.Kind == "enum" {
+						if e := cc.k.x.req.FindEnum(fl.TypeName); e != nil {
+							for _, v := range e.Values {
+								if v.Custom != nil {
+									return true
+								}
+							}
+						}
+					}
+				}
+				if walk(m.Nested) {
+					return true
+				}
+			}
+			return false
+		}
+		if walk(f.Messages) {
+			return true
+		}
+	}
+	return false
+}
+
+// leafDiff is the first place two messages of one type differ: the field path down to it and
+// what each side holds there.
+type leafDiff struct {
+	path           []protoreflect.FieldDescriptor
+	origHas, gotHas bool
+	orig           protoreflect.Value
+}
+
+func scalarEq(fd protoreflect.FieldDescriptor, a, b protoreflect.Value) bool {
+	switch fd.Kind() {
+	case protoreflect.FloatKind, protoreflect.DoubleKind:
+		x, y := a.Float(), b.Float()
+		return math.Float64bits(x) == math.Float64bits(y) || (x != x && y != y)
+	case protoreflect.BytesKind:
+		return string(a.Bytes()) == string(b.Bytes())
+	}
+	return a.Interface() == b.Interface()
+}
+
+func firstLeafDiff(a, b protoreflect.Message) *leafDiff {
+	fds := a.Descriptor().Fields()
+	for i := 0; i < fds.Len(); i++ {
+		fd := fds.Get(i)
+		ha, hb := a.Has(fd), b.Has(fd)
+		if !ha && !hb {
+			continue
+		}
+		here := &leafDiff{path: []protoreflect.FieldDescriptor{fd}, origHas: ha, gotHas: hb}
+		if ha {
+			here.orig = a.Get(fd)
+		}
+		if ha != hb {
+			return here
+		}
+		sub := func(x, y protoreflect.Message) *leafDiff {
+			if d := firstLeafDiff(x, y); d != nil {
+				d.path = append([]protoreflect.FieldDescriptor{fd}, d.path...)
+				return d
+			}
+			return nil
+		}
+		switch {
+		case fd.IsMap():
+			ma, mb := a.Get(fd).Map(), b.Get(fd).Map()
+			if ma.Len() != mb.Len() {
+				return here
+			}
+			var out *leafDiff
+			ma.Range(func(k protoreflect.MapKey, va protoreflect.Value) bool {
+				if !mb.Has(k) {
+					out = here
+					return false
+				}
+				if fd.MapValue().Kind() == protoreflect.MessageKind {
+					out = sub(va.Message(), mb.Get(k).Message())
+				} else if !scalarEq(fd.MapValue(), va, mb.Get(k)) {
+					out = here
+				}
+				return out == nil
+			})
+			if out != nil {
+				return out
+			}
+		case fd.IsList():
+			la, lb := a.Get(fd).List(), b.Get(fd).List()
+			if la.Len() != lb.Len() {
+				return here
+			}
+			for j := 0; j < la.Len(); j++ {
+				if fd.Kind() == protoreflect.MessageKind {
+					if d := sub(la.Get(j).Message(), lb.Get(j).Message()); d != nil {
+						return d
+					}
+				} else if !scalarEq(fd, la.Get(j), lb.Get(j)) {
+					return here
+				}
+			}
+		case fd.Kind() == protoreflect.MessageKind:
+			if d := sub(a.Get(fd).Message(), b.Get(fd).Message()); d != nil {
+				return d
+			}
+		default:
+			if !scalarEq(fd, a.Get(fd), b.Get(fd)) {
+				return here
+			}
+		}
+	}
+	return nil
+}
+
+func multiWord(fd protoreflect.FieldDescriptor) bool { return string(fd.Name()) != fd.JSONName() }
+
+// decodeValueCause names the root cause of "decodes, but to a different message" from where the
+// original and the decoded message first differ.
+func (cc *codecCtx) decodeValueCause(got proto.Message) string {
+	m := cc.msg()
+	if m == nil {
+		return cc.feat
+	}
+	x := proto.Clone(cc.k.val).ProtoReflect()
+	y := proto.Clone(got).ProtoReflect()
+	lossyAll(cc.k.x.req, cc.k.full, x)
+	lossyAll(cc.k.x.req, cc.k.full, y)
+	dropEmptyFlattenChildren(cc.k.x.req, cc.k.full, x)
+	dropEmptyFlattenChildren(cc.k.x.req, cc.k.full, y)
+	d := firstLeafDiff(x, y)
+	if d == nil {
+		return cc.feat
+	}
+	top, leaf := d.path[0], d.path[len(d.path)-1]
+	var topIR *ir.Field
+	for _, f := range m.Fields {
+		if f.Name == string(top.Name()) {
+			topIR = f
+		}
+	}
+	if topIR == nil {
+		return cc.feat
+	}
+	viaGoJSON := false // does the differing leaf sit in a subtree the template encodes with encoding/json?
+	switch cc.template {
+	case "flatten":
+		if topIR.Ann.Flatten != nil && *topIR.Ann.Flatten {
+			return "flatten_child_lost"
+		}
+	case "oneof":
+		if o, f := cc.selectedVariant(); o != nil && f != nil && f.Name == topIR.Name && o.Flatten && top.Kind() == protoreflect.MessageKind {
+			if x.Has(top) && hasNonFiniteFloat(x.Get(top).Message()) {
+				return "oneof_flatten_variant_dropped_on_marshal_error"
+			}
+			viaGoJSON = true
+		}
+	case "container":
+		isUnwrapMap := false
+		if topIR.Card == "map" && topIR.Kind == "message" {
+			if w := cc.find(topIR.TypeName); w != nil {
+				for _, wf := range w.Fields {
+					if wf.Ann.Unwrap {
+						isUnwrapMap = true
+					}
+				}
+			}
+		}
+		switch {
+		case isUnwrapMap:
+			return "unwrap_map_value"
+		case topIR.Card == "map" && topIR.Kind == "message":
+			viaGoJSON = true
+		case topIR.Kind != "message":
+			viaGoJSON = true
+		}
+	}
+	if viaGoJSON && d.origHas && !d.gotHas && !leaf.IsList() && !leaf.IsMap() {
+		switch leaf.Kind() {
+		case protoreflect.FloatKind, protoreflect.DoubleKind:
+			if v := d.orig.Float(); v == 0 && math.Signbit(v) {
+				return "negative_zero_dropped_by_omitempty"
+			}
+		case protoreflect.BytesKind:
+			if leaf.HasOptionalKeyword() && len(d.orig.Bytes()) == 0 {
+				return "optional_empty_bytes_dropped_by_omitempty"
+			}
+		}
+	}
+	if viaGoJSON && len(d.path) >= 2 && d.origHas && !d.gotHas && multiWord(d.path[1]) {
+		// a member written lowerCamel (proto3 JSON) never matches the struct tag (snake_case)
+		if cc.template == "oneof" {
+			return "oneof_flatten_multiword_variant_field_dropped"
+		}
+		return "unwrap_container_map_value_member_dropped"
+	}
+	switch cc.template {
+	case "flatten", "oneof":
+		return cc.template + "_value"
+	}
+	return cc.feat
+}
+
+// decodeCheck compares one decoding observed on the real code (error text or decoded value, as
+// protojson of the result) with the original value (oracle) and with the Lean decoder model's
+// prediction (correspondence). kind is "roundtrip" (input: the generated encoder's own output)
+// or "decode_contract_form" (input: the documented JSON of the value). asym is the legacy
+// explanation for the templates whose generated decoder is outside GoDec (DErr.unsupported).
+func (cc *codecCtx) decodeCheck(kind string, realErrAny, faultAny, realVal, predAny any, asym bool) {
+	res, k := cc.res, cc.k
+	if fault, _ := faultAny.(string); fault != "" {
+		res.Violation("fault", k.name+": decoder "+fault, cc.replay)
+		return
+	}
+	realErr, _ := realErrAny.(string)
+	pred, _ := predAny.(map[string]any)
+	var predErr map[string]any
+	var predVal any
+	if pred != nil {
+		predErr, _ = pred["err"].(map[string]any)
+		predVal = pred["val"]
+	}
+	class, key := "", ""
+	if predErr != nil {
+		class, _ = predErr["class"].(string)
+		key, _ = predErr["key"].(string)
+	}
+	errKey, valKey := kind+"_error:", kind+":"
+	if kind == "decode_contract_form" {
+		errKey, valKey = kind+":", kind+"_value:"
+	}
+	what := "the generated decoder rejects what the generated encoder produced"
+	whatVal := "decode(encode(v)) differs from v beyond the documented losses"
+	if kind == "decode_contract_form" {
+		what = "the contract-form JSON is rejected"
+		whatVal = "decoding the contract-form JSON yields a different message"
+	}
+	if pred == nil || class == "unsupported" {
+		// no prediction: only the families whose decoder is plain surgery + protojson may be here
+		if cc.template != "surgery" && cc.template != "root" {
+			res.Corr("decode_model:"+cc.feat, fmt.Sprintf("%s: the decoder model gives no prediction (%s %s)", k.name, class, key), cc.replay)
+		}
+		agrees := asym && (cc.template == "surgery" || cc.template == "root")
+		if realErr != "" {
+			res.Divergence(errKey+cc.feat, fmt.Sprintf("%s: %s: %s", k.name, what, firstLine(realErr)), agrees, cc.replay)
+			return
+		}
+		got := dynamicpb.NewMessage(k.val.Descriptor())
+		if b, err := json.Marshal(realVal); err == nil {
+			if err := protojsonUnmarshal(b, got); err == nil && !codecLossyEqual(k.x.req, k.full, k.val, got) {
+				res.Divergence(valKey+cc.feat, fmt.Sprintf("%s: %s", k.name, whatVal), agrees, cc.replay)
+			}
+		}
+		return
+	}
+	if realErr != "" {
+		agrees := predErr != nil
+		if agrees && class == "unknown_field" && strings.Contains(realErr, "unknown field") && !strings.Contains(realErr, "unknown field \""+key+"\"") {
+			agrees = false
+		}
+		if agrees {
+			res.CorrAgree()
+		} else {
+			res.Corr("dec:"+cc.feat, fmt.Sprintf("%s (%s): the real decoder fails (%s), the model predicts %v", k.name, kind, firstLine(realErr), pred), cc.replay)
+		}
+		if !agrees {
+			class, key = "", ""
+		}
+		res.Divergence(errKey+cc.decodeErrorCause(class, key, realErr), fmt.Sprintf("%s: %s: %s", k.name, what, firstLine(realErr)), agrees, cc.replay)
+		return
+	}
+	got := dynamicpb.NewMessage(k.val.Descriptor())
+	b, err := json.Marshal(realVal)
+	if err == nil {
+		err = protojsonUnmarshal(b, got)
+	}
+	if err != nil {
+		res.Corr("dec:"+cc.feat, fmt.Sprintf("%s (%s): cannot re-read the decoded value: %v", k.name, kind, err), cc.replay)
+		return
+	}
+	agrees := false
+	if predErr != nil {
+		res.Corr("dec:"+cc.feat, fmt.Sprintf("%s (%s): the model predicts a decoder error (%s %s), the real decoder succeeded", k.name, kind, class, key), cc.replay)
+	} else if pm, err := valToMsg(k.val.Descriptor(), predVal); err != nil {
+		res.Corr("dec:"+cc.feat, fmt.Sprintf("%s (%s): unreadable model value: %v", k.name, kind, err), cc.replay)
+	} else if proto.Equal(got, pm) {
+		agrees = true
+		res.CorrAgree()
+	} else {
+		res.Corr("dec:"+cc.feat, fmt.Sprintf("%s (%s): the decoded message differs from the model's: real %s, model %s", k.name, kind, gen.PJ(got), gen.PJ(pm)), cc.replay)
+	}
+	if !codecLossyEqual(k.x.req, k.full, k.val, got) {
+		res.Divergence(valKey+cc.decodeValueCause(got), fmt.Sprintf("%s: %s", k.name, whatVal), agrees, cc.replay)
+	}
 }
 
 // modelToPlainJSON turns the driver's {"$int"/"$float": text} wrappers into JSON numbers.
@@ -552,12 +1216,4 @@ func contextOf(req *ir.Request, full string, diff string) string {
 		}
 	}
 	return top + "@top"
-}
-
-func unmodelled(d map[string]any) bool {
-	if d == nil {
-		return false
-	}
-	m, _ := d["modelled"].(bool)
-	return !m
 }
